@@ -1,6 +1,7 @@
 package main
 
 import (
+	"runtime/pprof"
 	"encoding/json"
 	"flag"
 	"fmt"
@@ -46,7 +47,13 @@ func main() {
 	list := flag.Bool("list", false, "list properties")
 	explain := flag.String("explain", "", "print a violation report")
 	variantName := flag.String("variant", "", "internal: run a single variant (default|with_tla|386) and print obligations as JSON")
+	cpuprof := flag.String("cpuprofile", "", "debug: write CPU profile")
 	flag.Parse()
+	if *cpuprof != "" {
+		f, _ := os.Create(*cpuprof)
+		pprof.StartCPUProfile(f)
+		defer pprof.StopCPUProfile()
+	}
 	// go/packages looks `go` up through this process's PATH
 	os.Setenv("PATH", "/opt/veriftools/go1.26.8/bin:"+os.Getenv("PATH"))
 	os.Setenv("GOTOOLCHAIN", "local")
@@ -112,7 +119,9 @@ func main() {
 		"integer reasoning treats uint64 as mathematical integers (no wrap-around)",
 	}, rule.Assume...)}
 	runProperty(*repo, rule, *tier, res)
-	os.Exit(res.Finish(verifDir()))
+	rc := res.Finish(verifDir())
+	pprof.StopCPUProfile()
+	os.Exit(rc)
 }
 
 func flagSet(name string) bool {
@@ -142,7 +151,11 @@ func runOnProg(p *Prog, rule *PropertyRule) (c *Check, failures []string) {
 	if fails := ruleE0(p); len(fails) > 0 {
 		failures = append(failures, fails...)
 	}
+	t0 := time.Now()
 	rule.Run(c)
+	if os.Getenv("RAFTLINT_TIMING") != "" {
+		fmt.Fprintf(os.Stderr, "rule.Run %s: %.1fs\n", rule.ID, time.Since(t0).Seconds())
+	}
 	for _, a := range p.anchor {
 		failures = append(failures, "anchor unresolved: "+a)
 	}
